@@ -212,6 +212,12 @@ func c09Mix(srcRoot string) []c09Exec {
 			// channels, not a WaitGroup: a *sync.WaitGroup handed to `go` from dashboard code is Done() on a copy and Wait() never returns (the program blocks itself)
 			return fmt.Sprintf("func runit() {\n n := %d\n ch := make(chan, n)\n for k := 0; k < n; k = k + 1 {\n  go func(v int, c chan) {\n   c <- v * 2\n  }(k, ch)\n }\n s := 0\n for k := 0; k < n; k = k + 1 {\n  x := <-ch\n  s = s + x\n }\n fmt.Println(s)\n}\nrunit()\n", 2+i%3)
 		}},
+		{kind: "debug-session-abandoned-then-evicted", mode: "debug-abandon", expect: "evicted", src: func(i int) string {
+			return fmt.Sprintf("x := %d\nfmt.Println(x)\ny := x + 1\nfmt.Println(y)\n", i)
+		}},
+		{kind: "debug-session-continued-to-end", mode: "debug-continue", expect: "finished", src: func(i int) string {
+			return fmt.Sprintf("x := %d\nfmt.Println(x)\n", i)
+		}},
 		{kind: "service-hello", mode: "service", expect: "200", svc: func(i int) (string, string) {
 			return "/services/hello", filepath.Join(srcRoot, "lib/services/hello.ego")
 		}},
@@ -263,8 +269,8 @@ func runService(path, file string) (o outcome) {
 
 func TestC09(t *testing.T) {
 	r := vh.New("C09", "goroutines")
-	r.Rule = "one round = N executions cycling through 28 kinds of execution (normal end, Ego error, unrecovered panic(), @fail, compile error, os.Exit, goroutines joined by WaitGroup/channels, " +
-		"sort.Slice comparators incl. erroring ones, String() methods called from fmt incl. erroring ones, @test files (Timer opcode), admin.RunCodeHandler editor/console, services.ServiceHandler) with varying parameters; " +
+	r.Rule = "one round = N executions cycling through 30 kinds of execution (normal end, Ego error, unrecovered panic(), @fail, compile error, os.Exit, goroutines joined by WaitGroup/channels, " +
+		"sort.Slice comparators incl. erroring ones, String() methods called from fmt incl. erroring ones, @test files (Timer opcode), admin.RunCodeHandler editor/console, dashboard debug sessions abandoned-then-evicted and continued to the end, services.ServiceHandler) with varying parameters; " +
 		"distinct = distinct (kind, source); non-trivial = the execution really compiled and ran Ego code."
 	r.Assume("goroutines are attributed to the function named in the 'created by' line of runtime.Stack(all)")
 	r.Assume("every program of the mix joins the goroutines it starts, so any goroutine alive at a checkpoint was started by the interpreter, not left running by the program")
@@ -331,7 +337,16 @@ func TestC09(t *testing.T) {
 				src = e.src(i)
 				done := make(chan outcome, 1)
 
-				go func() { done <- runInput(e.mode, src) }()
+				go func() {
+					switch e.mode {
+					case "debug-abandon":
+						done <- runDebugSession(src, true)
+					case "debug-continue":
+						done <- runDebugSession(src, false)
+					default:
+						done <- runInput(e.mode, src)
+					}
+				}()
 
 				select {
 				case o = <-done:
